@@ -992,6 +992,12 @@ def split_model(interp, s, args, kwargs):
     ctx.assume(S.len(t) >= 1)
     ctx.assume(z3.Select(S.arr(t), 0) == z3.If(idx < 0, zs, z3.SubString(zs, 0, idx)))
     ctx.assume((S.len(t) == 1) == (idx < 0))
+    # second part: the text between the first and the second separator (or everything after the first one); two parts iff sep occurs once
+    zsep = z3.StringVal(sep)
+    rest = z3.SubString(zs, idx + len(sep), z3.Length(zs) - idx - len(sep))
+    idx2 = z3.IndexOf(rest, zsep, 0)
+    ctx.assume(z3.Implies(idx >= 0, z3.Select(S.arr(t), 1) == z3.If(idx2 < 0, rest, z3.SubString(rest, 0, idx2))))
+    ctx.assume(z3.Implies(idx >= 0, (S.len(t) == 2) == (idx2 < 0)))
     interp.used_models.add("str.split(sep): uninterpreted list with len>=1, parts[0] = text before the first sep, len==1 iff sep absent")
     return lty.wrap(t)
 
